@@ -402,6 +402,86 @@ Definition flags_of (tk : task) (s : fs) : cfg :=
      c_st := fun i => match s (PTmp i) with Absent => false | _ => true end |}.
 
 (* ------------------------------------------------------------------ *)
+(* the exact per-task shape (informational)                            *)
+(* ------------------------------------------------------------------ *)
+(* What each task does today with one output file, written from its source
+   (table at the top of this file).  [accepts] - which the theorems are
+   about - admits more (the union, any number of rounds); the harness
+   reports, without alarm, when a task no longer has exactly this shape. *)
+
+(* common.setup_task_paths is called (all tasks but split) *)
+Definition has_setup (tk : task) : bool :=
+  match tk with Split => false | _ => true end.
+
+(* the temporary file is created with h5py.File(path_temp, "w") *)
+Definition creates_trunc (tk : task) : bool :=
+  match tk with Compress | Condense | Repack => true | _ => false end.
+
+(* re-open/append rounds after the creating round (RTDCWriter on path_temp) *)
+Definition append_rounds (tk : task) : nat :=
+  match tk with Condense | Repack => 0 | _ => 1 end.
+
+Definition lop_eqb (a b : lop) : bool :=
+  match a, b with
+  | LUnlinkOut, LUnlinkOut | LUnlinkTmp, LUnlinkTmp
+  | LCreateTrunc, LCreateTrunc | LOpenAppend, LOpenAppend
+  | LWrite, LWrite | LClose, LClose | LRename, LRename
+  | LOpenReadTmp, LOpenReadTmp | LOpenReadOut, LOpenReadOut
+  | LCloseOut, LCloseOut => true
+  | _, _ => false
+  end.
+
+(* the local operations on output file i, in order *)
+Fixpoint proj (i : nat) (t : list op) : list lop :=
+  match t with
+  | [] => []
+  | o :: t' =>
+      match classify o with
+      | CFile k l => if Nat.eqb k i then l :: proj i t' else proj i t'
+      | _ => proj i t'
+      end
+  end.
+
+Definition expect (x : lop) (l : option (list lop)) : option (list lop) :=
+  match l with
+  | Some (y :: r) => if lop_eqb x y then Some r else None
+  | _ => None
+  end.
+
+Fixpoint drop_writes (l : list lop) : list lop :=
+  match l with
+  | LWrite :: r => drop_writes r
+  | _ => l
+  end.
+
+Definition writes_then_close (l : option (list lop)) : option (list lop) :=
+  match l with
+  | Some l' => expect LClose (Some (drop_writes l'))
+  | None => None
+  end.
+
+Fixpoint rounds_exact (n : nat) (l : option (list lop)) : option (list lop) :=
+  match n with
+  | O => l
+  | S n' => rounds_exact n' (writes_then_close (expect LOpenAppend l))
+  end.
+
+Definition strict_file (tk : task) (so st : bool) (l : list lop) : bool :=
+  let l0 := Some l in
+  let l1 := if has_setup tk && so then expect LUnlinkOut l0 else l0 in
+  let l2 := if has_setup tk && st then expect LUnlinkTmp l1 else l1 in
+  let l3 := expect (if creates_trunc tk then LCreateTrunc else LOpenAppend) l2 in
+  let l4 := writes_then_close l3 in
+  match rounds_exact (append_rounds tk) l4 with
+  | Some [LRename] => true
+  | _ => false
+  end.
+
+Definition strict_shape (c : cfg) (n : nat) (t : list op) : bool :=
+  forallb (fun i => strict_file (c_task c) (c_so c i) (c_st c i) (proj i t))
+          (seq 0 n).
+
+(* ------------------------------------------------------------------ *)
 (* interface for the correspondence check (Gen/TaskTraces.v, harness)  *)
 (* ------------------------------------------------------------------ *)
 (* traces are run-length encoded *)
@@ -435,7 +515,7 @@ Definition vis_code (v : vis) : Z :=
 
 (* [accepted; first rejected position; number of operations;
     then for every output i: view of out_i, view of tmp_i after the
-    fault-free run] *)
+    fault-free run; last: the trace has the exact per-task shape] *)
 Definition check_case (tc : traced_case) : list Z :=
   match tc with
   | (tk, n, so, st, rle) =>
@@ -448,6 +528,7 @@ Definition check_case (tc : traced_case) : list Z :=
       ++ flat_map (fun i => [vis_code (view (wcount i t) (sF (POut i)));
                              vis_code (view (wcount i t) (sF (PTmp i)))])
                   (seq 0 n)
+      ++ [ (if strict_shape c n t then 1 else 0)%Z ]
   end.
 
 (* predicted observation after a fault at operation k:
